@@ -1027,6 +1027,7 @@ pub fn prop_fn(prop: &str) -> fn(&mut Out, &AG, &mut Rng) {
         "C15" => c15_graph,
         "C20" => c20_graph,
         "C08" => c08_graph,
+        "C06" => crate::views::c06_graph,
         _ => panic!("unknown property {}", prop),
     }
 }
